@@ -58,7 +58,7 @@ class RealStore:
         t.n_descent = npts - 2 * (npts // 3)
         t.flight_id = fid
         if extra:
-            t.x1 = ar * 2.0
+            t.x1 = ar * 2.0 + base
         if bad == 'missing_required':
             t._data['starting_mass'] = None
         return t
